@@ -384,3 +384,139 @@ Theorem C16_gram_pivots_nonzero : forall (Nm : list (list R)) rows n, rect rows 
   forall i, (i < n)%nat -> get2 Rops (snd (doolittle Rops (mmul Rops (transpose Rops Nm) Nm))) i i <> 0%R.
 Proof. exact gram_pivots_nonzero. Qed.
 Print Assumptions C16_gram_pivots_nonzero.
+
+(* ====================== TRANSLATOR TIE (Proofs/GenTie*.v) ======================
+   coq/Gen/*.v is the Gallina rendering of the Python source produced by harness/pytrans.py; every run of ./check regenerates it
+   from /repo and compares it function by function with the committed text (evidence: translator_tie).  The theorems below say
+   that the hand-written model (the subject of the theorems above) computes, for ALL inputs satisfying the stated
+   well-formedness, exactly what the translated source computes.  This block stays LAST in the file: its imports shadow
+   model names. *)
+From Coq Require Import List QArith Reals Qreals Lia Lra Arith Bool ZArith.
+From NV Require Import Scalar.Ops Model.Common Model.Basis Model.Knots Model.KnotIns Model.KnotRem Model.LinAlg Model.Degree
+  Gen.Prelude Gen.LinalgInternal Gen.Linalg Gen.Knotvector Gen.Helpers
+  Proofs.GenTieSums Proofs.GenTieLinAlg Proofs.GenTieSubst Proofs.GenTieLU Proofs.GenTieLUSolve Proofs.GenTieKnotRem Proofs.GenTieDegree
+  Proofs.GenTieLib Proofs.GenTieKnots Proofs.GenTieSpan Proofs.GenTieBasis Proofs.GenTieBasisOne
+  Proofs.GenTieDersOne Proofs.GenTieDersLib Proofs.GenTieDers Proofs.GenTieKnotIns.
+Local Open Scope nat_scope.
+
+
+(* [G] vector_multiply, vector_sum: no condition *)
+Theorem C16_gen_vector_multiply_R : forall (v : list R) (s : R), Linalg.vector_multiply Rops v s = GOk (LinAlg.vector_multiply Rops v s).
+Proof. exact vector_multiply_tie_R. Qed.
+Print Assumptions C16_gen_vector_multiply_R.
+Theorem C16_gen_vector_multiply_Q : forall (v : list Q) (s : Q), Linalg.vector_multiply Qops v s = GOk (LinAlg.vector_multiply Qops v s).
+Proof. exact vector_multiply_tie_Q. Qed.
+Print Assumptions C16_gen_vector_multiply_Q.
+Theorem C16_gen_vector_sum_R : forall (a b : list R) (c : R), Linalg.vector_sum Rops a b c = GOk (LinAlg.vector_sum Rops a b c).
+Proof. exact vector_sum_tie_R. Qed.
+Print Assumptions C16_gen_vector_sum_R.
+Theorem C16_gen_vector_sum_Q : forall (a b : list Q) (c : Q), Linalg.vector_sum Qops a b c = GOk (LinAlg.vector_sum Qops a b c).
+Proof. exact vector_sum_tie_Q. Qed.
+Print Assumptions C16_gen_vector_sum_Q.
+
+(* [G] vector_dot, vector_cross: all inputs; ValueError exactly when the model rejects *)
+Theorem C16_gen_vector_dot_R : forall a b : list R,
+  Linalg.vector_dot Rops a b = res_to_gres (fun x => x) ValueError IndexError (LinAlg.vector_dot Rops a b).
+Proof. exact vector_dot_tie_R. Qed.
+Print Assumptions C16_gen_vector_dot_R.
+Theorem C16_gen_vector_dot_Q : forall a b : list Q,
+  Linalg.vector_dot Qops a b = res_to_gres (fun x => x) ValueError IndexError (LinAlg.vector_dot Qops a b).
+Proof. exact vector_dot_tie_Q. Qed.
+Print Assumptions C16_gen_vector_dot_Q.
+Theorem C16_gen_vector_cross_R : forall a b : list R,
+  Linalg.vector_cross Rops a b = res_to_gres (fun x => x) ValueError IndexError (LinAlg.vector_cross Rops a b).
+Proof. exact vector_cross_tie_R. Qed.
+Print Assumptions C16_gen_vector_cross_R.
+Theorem C16_gen_vector_cross_Q : forall a b : list Q,
+  Linalg.vector_cross Qops a b = res_to_gres (fun x => x) ValueError IndexError (LinAlg.vector_cross Qops a b).
+Proof. exact vector_cross_tie_Q. Qed.
+Print Assumptions C16_gen_vector_cross_Q.
+
+(* [G] matrix_transpose; wf: no row shorter than the first (the model's own condition); [] raises IndexError <-> Crash *)
+Theorem C16_gen_matrix_transpose_R : forall m : list (list R),
+  (forall r, In r m -> length (hd [] m) <= length r) ->
+  Linalg.matrix_transpose Rops m = res_to_gres (fun x => x) ValueError IndexError (LinAlg.matrix_transpose Rops m).
+Proof. exact matrix_transpose_tie_R. Qed.
+Print Assumptions C16_gen_matrix_transpose_R.
+Theorem C16_gen_matrix_transpose_Q : forall m : list (list Q),
+  (forall r, In r m -> length (hd [] m) <= length r) ->
+  Linalg.matrix_transpose Qops m = res_to_gres (fun x => x) ValueError IndexError (LinAlg.matrix_transpose Qops m).
+Proof. exact matrix_transpose_tie_Q. Qed.
+Print Assumptions C16_gen_matrix_transpose_Q.
+
+(* [G] matrix_multiply; GeomdlException <-> Rejected, IndexError <-> Crash; wf: rows of mat1 have >= len(mat2) entries and
+   rows of mat2 >= len(mat2[0]) (Python only compares len(mat1[0]) with len(mat2)) *)
+Theorem C16_gen_matrix_multiply_R : forall a b : list (list R),
+  (forall ra, In ra a -> length b <= length ra) -> (forall rb, In rb b -> length (hd [] b) <= length rb) ->
+  Linalg.matrix_multiply Rops a b = res_to_gres (fun x => x) GeomdlError IndexError (LinAlg.matrix_multiply Rops a b).
+Proof. exact matrix_multiply_tie_R. Qed.
+Print Assumptions C16_gen_matrix_multiply_R.
+Theorem C16_gen_matrix_multiply_Q : forall a b : list (list Q),
+  (forall ra, In ra a -> length b <= length ra) -> (forall rb, In rb b -> length (hd [] b) <= length rb) ->
+  Linalg.matrix_multiply Qops a b = res_to_gres (fun x => x) GeomdlError IndexError (LinAlg.matrix_multiply Qops a b).
+Proof. exact matrix_multiply_tie_Q. Qed.
+Print Assumptions C16_gen_matrix_multiply_Q.
+
+(* [G] lu_decomposition (with _linalg.doolittle and its try/except ZeroDivisionError): ALL inputs; ValueError <-> Rejected *)
+Theorem C16_gen_lu_decomposition_R : forall A : list (list R),
+  Linalg.lu_decomposition Rops A = res_to_gres (fun x => x) ValueError IndexError (LinAlg.lu_decomposition Rops A).
+Proof. exact lu_decomposition_tie_R. Qed.
+Print Assumptions C16_gen_lu_decomposition_R.
+Theorem C16_gen_lu_decomposition_Q : forall A : list (list Q),
+  Linalg.lu_decomposition Qops A = res_to_gres (fun x => x) ValueError IndexError (LinAlg.lu_decomposition Qops A).
+Proof. exact lu_decomposition_tie_Q. Qed.
+Print Assumptions C16_gen_lu_decomposition_Q.
+
+(* [G] forward / backward substitution (division checked: ZeroDivisionError is what the model calls Crash), the non-raising
+   case: rows long enough, no zero on the diagonal *)
+Theorem C16_gen_forward_substitution_R : forall (L : list (list R)) (b : list R),
+  b <> [] -> (forall i, i < length b -> i < length (nth i L [])) ->
+  (forall i, i < length b -> oeqb Rops (get2 Rops L i i) 0%R = false) ->
+  Linalg.forward_substitution Rops L b = res_to_gres (fun x => x) ValueError IndexError (LinAlg.forward_substitution Rops L b).
+Proof. exact forward_substitution_tie_R. Qed.
+Print Assumptions C16_gen_forward_substitution_R.
+Theorem C16_gen_forward_substitution_Q : forall (L : list (list Q)) (b : list Q),
+  b <> [] -> (forall i, i < length b -> i < length (nth i L [])) ->
+  (forall i, i < length b -> oeqb Qops (get2 Qops L i i) 0%Q = false) ->
+  Linalg.forward_substitution Qops L b = res_to_gres (fun x => x) ValueError IndexError (LinAlg.forward_substitution Qops L b).
+Proof. exact forward_substitution_tie_Q. Qed.
+Print Assumptions C16_gen_forward_substitution_Q.
+Theorem C16_gen_backward_substitution_R : forall (U : list (list R)) (y : list R),
+  y <> [] -> (forall i, i < length y -> length y <= length (nth i U [])) ->
+  (forall i, i < length y -> oeqb Rops (get2 Rops U i i) 0%R = false) ->
+  Linalg.backward_substitution Rops U y = res_to_gres (fun x => x) ValueError IndexError (LinAlg.backward_substitution Rops U y).
+Proof. exact backward_substitution_tie_R. Qed.
+Print Assumptions C16_gen_backward_substitution_R.
+Theorem C16_gen_backward_substitution_Q : forall (U : list (list Q)) (y : list Q),
+  y <> [] -> (forall i, i < length y -> length y <= length (nth i U [])) ->
+  (forall i, i < length y -> oeqb Qops (get2 Qops U i i) 0%Q = false) ->
+  Linalg.backward_substitution Qops U y = res_to_gres (fun x => x) ValueError IndexError (LinAlg.backward_substitution Qops U y).
+Proof. exact backward_substitution_tie_Q. Qed.
+Print Assumptions C16_gen_backward_substitution_Q.
+
+(* [G] lu_solve, the non-raising case *)
+Theorem C16_gen_lu_solve_R : forall A b L U : list (list R),
+  b <> [] -> (forall r, In r b -> length (hd [] b) <= length r) -> LinAlg.lu_decomposition Rops A = Ok (L, U) ->
+  (forall i, i < length b -> i < length (nth i L []) /\ oeqb Rops (get2 Rops L i i) 0%R = false
+                             /\ length b <= length (nth i U []) /\ oeqb Rops (get2 Rops U i i) 0%R = false) ->
+  Linalg.lu_solve Rops A b = res_to_gres (fun x => x) ValueError IndexError (LinAlg.lu_solve Rops A b)
+  /\ exists x, LinAlg.lu_solve Rops A b = Ok x.
+Proof. exact lu_solve_tie_R. Qed.
+Print Assumptions C16_gen_lu_solve_R.
+Theorem C16_gen_lu_solve_Q : forall A b L U : list (list Q),
+  b <> [] -> (forall r, In r b -> length (hd [] b) <= length r) -> LinAlg.lu_decomposition Qops A = Ok (L, U) ->
+  (forall i, i < length b -> i < length (nth i L []) /\ oeqb Qops (get2 Qops L i i) 0%Q = false
+                             /\ length b <= length (nth i U []) /\ oeqb Qops (get2 Qops U i i) 0%Q = false) ->
+  Linalg.lu_solve Qops A b = res_to_gres (fun x => x) ValueError IndexError (LinAlg.lu_solve Qops A b)
+  /\ exists x, LinAlg.lu_solve Qops A b = Ok x.
+Proof. exact lu_solve_tie_Q. Qed.
+Print Assumptions C16_gen_lu_solve_Q.
+
+Example C16_gen_nonvacuous :
+  Linalg.lu_solve Qops [[4; 3; 2]; [2; 1; 3]; [3; 4; 1]]%Q [[1; 2]; [3; 4]; [5; 6]]%Q = GOk [[-3; -40#13]; [3; 42#13]; [2; 30#13]]%Q
+  /\ LinAlg.lu_decomposition Qops [[4; 3; 2]; [2; 1; 3]; [3; 4; 1]]%Q =
+     Ok ([[1; 0; 0]; [1#2; 1; 0]; [3#4; -7#2; 1]], [[4; 3; 2]; [0; -1#2; 2]; [0; 0; 13#2]])%Q
+  /\ Linalg.lu_decomposition Qops [[0; 1]; [1; 0]]%Q = GOk ([[1; 0]; [0; 1]], [[0; 1]; [0; 0]])%Q
+  /\ Linalg.matrix_multiply Qops [[4; 3]; [2; 1]]%Q [[1; 2]; [3; 4]; [5; 6]]%Q = GErr GeomdlError.
+Proof. repeat split; vm_compute; reflexivity. Qed.
+
